@@ -366,7 +366,11 @@ fn rewrite(case: &Value) -> Value {
         for r in rms {
             let Some(want) = r.as_u64() else { continue };
             let Some(nid) = g.node_ids().find(|&n| kidx(n) == want) else { continue };
-            if g.node_degree_in(nid) == 1 && g.node_degree_out(nid) == 1 {
+            // like `find_unary_ops` (since cf4f5db4389): never a node whose only edge is a self loop
+            if g.node_degree_in(nid) == 1
+                && g.node_degree_out(nid) == 1
+                && g.node_predecessor_nodes(nid).next() != Some(nid)
+            {
                 let prev = dump_graph(&g);
                 let res = std::panic::catch_unwind(std::panic::AssertUnwindSafe(|| g.remove_intermediate_node(nid)));
                 if let Err(e) = res {
